@@ -308,6 +308,8 @@ Error BaseAssembler::embed_label(const Label& label, size_t data_size) {
 
     Fixup* fixup = _code->new_fixup(le, _section->section_id(), offset(), 0, of);
     if (ASMJIT_UNLIKELY(!fixup)) {
+      // Discard the relocation entry created above as nothing is going to be emitted.
+      (void)_code->_relocations.pop();
       return report_error(make_error(Error::kOutOfMemory));
     }
 
@@ -372,6 +374,8 @@ Error BaseAssembler::embed_label_delta(const Label& label, const Label& base, si
 
     Expression* exp = _code->_arena.new_oneshot<Expression>();
     if (ASMJIT_UNLIKELY(!exp)) {
+      // Discard the relocation entry created above as nothing is going to be emitted.
+      (void)_code->_relocations.pop();
       return report_error(make_error(Error::kOutOfMemory));
     }
 
